@@ -57,6 +57,27 @@ def one_store(rng, k, ts_name, max_cli, max_srv, source, reception, handler, wor
     return term, human
 
 
+def write_part10(path, ds, ts, body, variant):
+    """A DICOM file for the file source: preamble, DICM, file meta group (explicit VR little endian), data set.
+    variant: 'standard'; 'no_instance' (no Media Storage SOP Instance UID in the meta group: storage_scu's fallback
+    branch); 'short_length' / 'long_length' (the group length element does not agree with the group's real length:
+    readers go by the tags, and so does the library)."""
+    import struct
+    import pydicom
+    from pynetdicom2 import dsutils
+    meta = pydicom.Dataset()
+    meta.FileMetaInformationVersion = b'\x00\x01'
+    meta.MediaStorageSOPClassUID = ds.SOPClassUID
+    if variant != 'no_instance':
+        meta.MediaStorageSOPInstanceUID = ds.SOPInstanceUID
+    meta.TransferSyntaxUID = ts
+    meta.ImplementationClassUID = '1.2.3.4'
+    enc = dsutils.encode(meta, False, True)
+    delta = {'short_length': -10, 'long_length': 14}.get(variant, 0)
+    with open(path, 'wb') as f:
+        f.write(b'\0' * 128 + b'DICM' + b'\x02\x00\x00\x00UL\x04\x00' + struct.pack('<I', len(enc) + delta) + enc + body)
+
+
 def _one_store(rng, k, ts_name, max_cli, max_srv, source, reception, handler, workdir, size=None):
     from pynetdicom2 import applicationentity as aemod, sopclass, statuses, exceptions, dsutils, dimsemessages as dm
     import pynetdicom2
@@ -67,6 +88,8 @@ def _one_store(rng, k, ts_name, max_cli, max_srv, source, reception, handler, wo
     ds.is_implicit_VR = ts.is_implicit_VR
     ds.is_little_endian = ts.is_little_endian
     expected = dsutils.encode(ds, ts.is_implicit_VR, ts.is_little_endian)
+    file_variant = rng.choice(['standard', 'standard', 'no_instance', 'short_length', 'long_length']) if source == 'file' \
+        else None
     seen = {}
 
     def on_store(self, context, fobj):
@@ -109,14 +132,7 @@ def _one_store(rng, k, ts_name, max_cli, max_srv, source, reception, handler, wo
                 svc = assoc.get_scu(CT)
                 if source == 'file':
                     path = os.path.join(workdir, 'src%d.dcm' % k)
-                    meta = pydicom.Dataset()
-                    meta.MediaStorageSOPClassUID = ds.SOPClassUID
-                    meta.MediaStorageSOPInstanceUID = ds.SOPInstanceUID
-                    meta.TransferSyntaxUID = ts
-                    fd = pydicom.dataset.FileDataset(path, ds, file_meta=meta, preamble=b'\0' * 128)
-                    fd.is_implicit_VR = ts.is_implicit_VR
-                    fd.is_little_endian = ts.is_little_endian
-                    fd.save_as(path, write_like_original=False)
+                    write_part10(path, ds, ts, expected, file_variant)
                     result = svc(path, k + 1)
                 else:
                     result = svc(ds, k + 1)
@@ -145,7 +161,8 @@ def _one_store(rng, k, ts_name, max_cli, max_srv, source, reception, handler, wo
         cbytes(expected), cbytes(received), cbool(in_file), cbytes(CT.encode()), cbytes(str(ds.SOPInstanceUID).encode()),
         cbytes(seen.get('cls', '').encode()), cbytes(seen_inst.encode()),
         'HError' if handler is None else '(HStatus %d)' % handler, st_back, cbool(parses))
-    human = dict(k=k, ts=ts_name, max_client=max_cli, max_server=max_srv, source=source, reception=reception,
+    human = dict(k=k, ts=ts_name, max_client=max_cli, max_server=max_srv, source=source, file_variant=file_variant,
+                 reception=reception,
                  handler=('EventHandlingError' if handler is None else hex(handler)), status_back=hex(st_back), error=err,
                  sent_len=len(expected), received_len=len(received), in_file=in_file, file_readable_and_equal=parses)
     return term, human
